@@ -431,6 +431,7 @@ func runSST(args []string) error {
 				emitScan(M{"t": "scanrange", "lo": r[0], "hi": r[1]}, it, err2)
 			}
 			rd.Close()
+			rd.Close() // closed twice (defer + explicit): whatever the first Close handed back must not be handed back again
 		}
 		os.RemoveAll(dir)
 	}
